@@ -5659,6 +5659,50 @@ def c17_mixture_functions():
     return out
 
 
+def c16_size_at():
+    """DemesUtil._size_at(t, N0, N1, t0, t1, f) for t0 > t >= t1 (demes time runs backwards: the epoch starts at t0 with size N0 and ends at t1 with N1):
+         constant    -> N0 (N0 == N1 asserted)
+         exponential -> N0 * exp( log(N1/N0) * (t0 - t)/(t0 - t1) )
+         linear      -> N0 + (N1 - N0) * (t0 - t)/(t0 - t1)
+       so that the size is N0 at the epoch's start and N1 at its end (both end-point values are obligations of their own: they pin the direction in
+       which the backwards time axis is read); any other size function is refused."""
+    oid = 'C16/DemesUtil.py:_size_at'
+    fn = 'dadi/Demes/DemesUtil.py::_size_at'
+
+    @guarded(oid, fn)
+    def go():
+        t, N0, N1, t0, t1 = z3.Reals('t N0 N1 t0 t1')
+        hy = [t0 > t1, t1 >= 0, t <= t0, t >= t1, N0 > 0, N1 > 0]
+        E, L = uf('exp'), uf('log')
+        out = []
+        frac = (t0 - t) / (t0 - t1)
+        for fname_, want, extra in (('constant', N0, [N0 == N1]), ('exponential', N0 * E(L(N1 / N0) * frac), []), ('linear', N0 + (N1 - N0) * frac, [])):
+            ex = Executor()
+            f = ex.func('dadi/Demes/DemesUtil.py', '_size_at')
+            paths = ex.run(f, [t, N0, N1, t0, t1, fname_], {}, base_pc=hy + extra)
+            rets = [p for p in paths if p.outcome == 'return']
+            o = '%s.%s' % (oid, fname_)
+            if len(rets) != 1 or len(paths) != 1:
+                out.append(struct(o, False, 'expected one returning path: %r' % paths[:2], fn, undecided=True))
+                continue
+            p = rets[0]
+            pc = hy + extra + list(p.pc)
+            out.append(prove_eq(o + '.value', pc, p.value, want, fn, finding_key='C16/_size_at/' + fname_))
+            if fname_ != 'constant':
+                # end points (exp(0) = 1 and exp(log x) = x are the axioms used for the exponential form)
+                ax = [E(z3.RealVal(0)) == 1, E(L(N1 / N0)) == N1 / N0]
+                v0 = z3.substitute(to_real(exact(p.value)), (t, t0))
+                v1 = z3.substitute(to_real(exact(p.value)), (t, t1))
+                out.append(prove_eq(o + '.at-start', pc + ax, z3.simplify(v0), N0, fn, finding_key='C16/_size_at/' + fname_))
+                out.append(prove_eq(o + '.at-end', pc + ax, z3.simplify(v1), N1, fn, finding_key='C16/_size_at/' + fname_))
+        ex = Executor()
+        f = ex.func('dadi/Demes/DemesUtil.py', '_size_at')
+        paths = ex.run(f, [t, N0, N1, t0, t1, 'quadratic'], {}, base_pc=hy)
+        out.append(struct(oid + '.other-refused', len(paths) == 1 and paths[0].outcome == 'raise', 'an unknown size function raises', fn))
+        return out
+    return go()
+
+
 def c16_shift_deme_time():
     """DemesUtil._shift_deme_time(d, t) for a deme with two epochs (start S > E1 > E2 >= 0, every number symbolic, 0 < t < S), _size_at abstract
     (every call recorded).  On every path:
